@@ -2,7 +2,8 @@
 
     Executable Gallina only; the proofs are in [FcacheProofs.v].
 
-    Modelled statement by statement (for one file, [fidx = 0]):
+    Modelled statement by statement, for a set of files ([fidx] indexes
+    [fc->info[]]; the keys of both sub-caches are [blkpos | fidx]):
     [fcache_get_mmap], [fcache_get_read], [fcache_get], [fcache_pread],
     [fcache_get_chunk], [fcache_put_chunk] and [fcache_put]
     (kdumpfile-priv.h).  The modelled source is the pinned tree with the
@@ -152,8 +153,9 @@ End Store.
 
 (** ** State *)
 
-(** content of an entry of [fc->cache]: the mapping of block [key], or MAP_FAILED *)
-Inductive mcontent := MapOk | MapFailed.
+(** content of an entry of [fc->cache]: the mapping of block [blkpos] of file [fidx]
+    (recorded when [mmap] is called), or MAP_FAILED *)
+Inductive mcontent := MapOk (fidx blkpos : N) | MapFailed.
 
 Inductive which := MM | FB.
 
@@ -258,16 +260,16 @@ Inductive outcome :=
 | OutSigbus | OutOOB | OutFuel.
 
 Section Fcache.
-  (** [fc->pgsz = 2^pgshift], [fc->mmapsz = fc->pgsz << order],
-      [fc->info[0].filesz], the file's bytes *)
+  (** [fc->pgsz = 2^pgshift], [fc->mmapsz = fc->pgsz << order] *)
   Variable pgshift order : N.
-  Variable filesz : N.
-  Variable file : N -> N.
-  (** [true]: the repaired source (#8); [false]: the unrepaired one *)
-  Variable clamp_eof : bool.
 
   Definition pgsz : N := 2 ^ pgshift.
   Definition mmapsz : N := N.shiftl pgsz order.
+
+  Section OneFile.
+  (** one file of the set: its size and its bytes *)
+  Variable filesz : N.
+  Variable file : N -> N.
 
   (** ** Specification (from the meaning: a file is its bytes, zeros after EOF) *)
 
@@ -288,60 +290,77 @@ Section Fcache.
   Definition read_page (blkpos : N) : list N :=
     let rd := N.min pgsz (filesz - blkpos) in
     map file (offs blkpos rd) ++ repeat 0 (N.to_nat (pgsz - rd)).
+  End OneFile.
+
+  (** The file set: [fc->info[fidx].filesz] and the bytes of file [fidx]
+      ([fcache_new] refuses more than [pgsz] files, so [fidx < pgsz]). *)
+  Variable fsz : N -> N.
+  Variable fdata : N -> N -> N.
+  (** [true]: the repaired source (#8); [false]: the unrepaired one *)
+  Variable clamp_eof : bool.
+  (** [true]: the code ([fbcache] key = [blkpos | fidx]); [false]: a variant
+      that forgets the file index in [fcache_get_read], to show what the
+      key's injectivity is needed for *)
+  Variable fb_key_has_fidx : bool.
 
   (** ** fcache_get_mmap *)
-  Definition fcache_get_mmap (st : state) (pos : N) : gres * state :=
+  Definition fcache_get_mmap (fidx : N) (st : state) (pos : N) : gres * state :=
+    let filesz := fsz fidx in
     let blkpos := align_down pos pgsz in
     if filesz <=? blkpos then (GErr ERR_NODATA, st) else
     let blkpos := align_down pos mmapsz in
-    let found (st' : state) : gres * state :=
+    (* [ce->data]: the mapping made when the entry was filled *)
+    let found (mfidx mblk : N) (st' : state) : gres * state :=
       let off := low_bits pos mmapsz in
       let len := mmapsz - off in
       let len := if clamp_eof && (filesz - blkpos <? mmapsz)
                  then align_down (filesz - blkpos + pgsz - 1) pgsz - off
                  else len in
-      (GOk (mkFce MM blkpos len (map mm_byte (offs pos len)) (off + len =? mmapsz)), st') in
+      (GOk (mkFce MM (N.lor blkpos fidx) len
+                  (map (mm_byte (fsz mfidx) (fdata mfidx)) (offs (mblk + off) len))
+                  (off + len =? mmapsz)), st') in
+    let key := N.lor blkpos fidx in                        (* blkpos | fidx *)
     let '(ev, st0) := pop_ev st in
-    (* key: blkpos | fidx, fidx = 0 *)
-    match store_get blkpos ev (st_mm st0) with
+    match store_get key ev (st_mm st0) with
     | Busy => (GErr ERR_BUSY, st0)
-    | Hit MapOk mm' => found (set_mm st0 mm')
+    | Hit (MapOk mfidx mblk) mm' => found mfidx mblk (set_mm st0 mm')
     | Hit MapFailed mm' =>                       (* cache_put_entry, then ERR_SYSTEM (repair 47) *)
-      (GErr ERR_SYSTEM, set_mm st0 (store_put blkpos mm'))
+      (GErr ERR_SYSTEM, set_mm st0 (store_put key mm'))
     | Miss mm' =>
       let '(failed, st1) := pop_mf st0 in
       if failed
-      then (GErr ERR_SYSTEM, set_mm st1 (store_put blkpos (store_insert blkpos MapFailed mm')))
-      else found (set_mm st1 (store_insert blkpos MapOk mm'))
+      then (GErr ERR_SYSTEM, set_mm st1 (store_put key (store_insert key MapFailed mm')))
+      else found fidx blkpos (set_mm st1 (store_insert key (MapOk fidx blkpos) mm'))
     end.
 
   (** ** fcache_get_read *)
-  Definition fcache_get_read (st : state) (pos : N) : gres * state :=
+  Definition fcache_get_read (fidx : N) (st : state) (pos : N) : gres * state :=
     let blkpos := align_down pos pgsz in
+    let key := if fb_key_has_fidx then N.lor blkpos fidx else blkpos in   (* blkpos | fidx *)
     let found (content : list N) (st' : state) : gres * state :=
       let off := low_bits pos pgsz in
       let len := pgsz - off in
-      (GOk (mkFce FB blkpos len
+      (GOk (mkFce FB key len
                   (map Byte (firstn (N.to_nat len) (skipn (N.to_nat off) content))) true), st') in
     let '(ev, st0) := pop_ev st in
-    match store_get blkpos ev (st_fb st0) with
+    match store_get key ev (st_fb st0) with
     | Busy => (GErr ERR_BUSY, st0)
     | Hit c fb' => found c (set_fb st0 fb')
     | Miss fb' =>
       let '(failed, st1) := pop_rf st0 in
       if failed
       then (GErr ERR_SYSTEM, set_fb st1 fb')                   (* cache_discard *)
-      else let c := read_page blkpos in
-           found c (set_fb st1 (store_insert blkpos c fb'))
+      else let c := read_page (fsz fidx) (fdata fidx) blkpos in
+           found c (set_fb st1 (store_insert key c fb'))
     end.
 
   (** ** fcache_get *)
-  Definition fcache_get (st : state) (pos : N) : gres * state :=
+  Definition fcache_get (fidx : N) (st : state) (pos : N) : gres * state :=
     let pol := st_policy st in
     match pol with
-    | NEVER => fcache_get_read st pos
+    | NEVER => fcache_get_read fidx st pos
     | _ =>
-      let '(r, st1) := fcache_get_mmap st pos in
+      let '(r, st1) := fcache_get_mmap fidx st pos in
       let st2 := match pol with
                  | TRY_ONCE => set_policy st1 (match r with GOk _ => ALWAYS | GErr _ => NEVER end)
                  | _ => st1
@@ -349,7 +368,7 @@ Section Fcache.
       match r, pol with
       | GOk _, _ => (r, st2)
       | _, ALWAYS => (r, st2)
-      | _, _ => fcache_get_read st2 pos
+      | _, _ => fcache_get_read fidx st2 pos
       end
     end.
 
@@ -365,26 +384,26 @@ Section Fcache.
     fold_left fcache_put (rev l) st.
 
   (** ** fcache_pread: [while (len)] with fuel [len + 1] *)
-  Fixpoint pread_loop (fuel : nat) (st : state) (pos len : N) (acc : list N)
+  Fixpoint pread_loop (fidx : N) (fuel : nat) (st : state) (pos len : N) (acc : list N)
     : outcome * state :=
     match fuel with
     | O => (OutFuel, st)
     | S fuel' =>
       if len =? 0 then (OutData acc GEmpty, st) else
-      match fcache_get st pos with
+      match fcache_get fidx st pos with
       | (GErr s, st1) => (OutErr s, st1)
       | (GOk f, st1) =>
         let partlen := N.min (fc_len f) len in
         match collect (firstn (N.to_nat partlen) (fc_view f)) with     (* memcpy *)
         | None => (OutSigbus, st1)
         | Some bs =>
-          pread_loop fuel' (fcache_put st1 f) (pos + partlen) (len - partlen) (acc ++ bs)
+          pread_loop fidx fuel' (fcache_put st1 f) (pos + partlen) (len - partlen) (acc ++ bs)
         end
       end
     end.
 
-  Definition fcache_pread (st : state) (pos len : N) : outcome * state :=
-    pread_loop (S (N.to_nat len)) st pos len [].
+  Definition fcache_pread (fidx : N) (st : state) (pos len : N) : outcome * state :=
+    pread_loop fidx (S (N.to_nat len)) st pos len [].
 
   (** ** fcache_get_chunk *)
 
@@ -401,7 +420,7 @@ Section Fcache.
 
   (** The [while (remain)] loop.  [slots]: size of the array [curfce] walks
       over; [arr]: [fces != NULL]. *)
-  Fixpoint chunk_loop (fuel : nat) (st : state) (pos remain : N) (slots : N) (arr : bool)
+  Fixpoint chunk_loop (fidx : N) (fuel : nat) (st : state) (pos remain : N) (slots : N) (arr : bool)
            (m : cmode) : chunk_res * state :=
     match fuel with
     | O => (ChFuel, st)
@@ -419,7 +438,7 @@ Section Fcache.
       else
       if (match m with NoCopy held => slots <=? N.of_nat (length held) | Copy _ => false end)
       then (ChOOB, st) else
-      match fcache_get st pos with
+      match fcache_get fidx st pos with
       | (GErr s, st1) =>
         match m with
         | Copy _ => (ChErr s, free1 st1)                                  (* #41 *)
@@ -433,14 +452,14 @@ Section Fcache.
         | Copy buf =>
           match collect (fc_view f) with
           | None => (ChSigbus, st1)
-          | Some bs => chunk_loop fuel' (fcache_put st1 f) (pos + l) (remain - l)
+          | Some bs => chunk_loop fidx fuel' (fcache_put st1 f) (pos + l) (remain - l)
                                   slots arr (Copy (buf ++ bs))
           end
-        | NoCopy [] => chunk_loop fuel' st1 (pos + l) (remain - l) slots arr (NoCopy [f])
+        | NoCopy [] => chunk_loop fidx fuel' st1 (pos + l) (remain - l) slots arr (NoCopy [f])
         | NoCopy held =>
           let '(adj, st2) := pop_adj st1 in
           if adj && prev_full held
-          then chunk_loop fuel' st2 (pos + l) (remain - l) slots arr (NoCopy (held ++ [f]))
+          then chunk_loop fidx fuel' st2 (pos + l) (remain - l) slots arr (NoCopy (held ++ [f]))
           else
             let '(failed, st3) := pop_al st2 in
             if failed
@@ -453,7 +472,7 @@ Section Fcache.
                 let st5 := release_array arr (put_all st4 held) in
                 match collect (fc_view f) with
                 | None => (ChSigbus, st5)
-                | Some b1 => chunk_loop fuel' (fcache_put st5 f) (pos + l) (remain - l)
+                | Some b1 => chunk_loop fidx fuel' (fcache_put st5 f) (pos + l) (remain - l)
                                         slots arr (Copy (b0 ++ b1))
                 end
               end
@@ -461,7 +480,7 @@ Section Fcache.
       end
     end.
 
-  Definition fcache_get_chunk (st : state) (pos len : N) : chunk_res * state :=
+  Definition fcache_get_chunk (fidx : N) (st : state) (pos len : N) : chunk_res * state :=
     if len =? 0 then (ChOk (mkChunk [] GEmpty []), st) else
     if (OFF_T_MAX <? len - 1) || ((0 <? pos) && (OFF_T_MAX - pos <? len - 1))
     then (ChErr ERR_NODATA, st) else                                        (* #72 *)
@@ -471,8 +490,8 @@ Section Fcache.
     if MAX_EMBED_FCES <? nent then
       let '(failed, st1) := pop_al st in
       if failed then (ChErr ERR_SYSTEM, st1)
-      else chunk_loop (S (N.to_nat len)) (alloc1 st1) pos len nent true (NoCopy [])
-    else chunk_loop (S (N.to_nat len)) st pos len MAX_EMBED_FCES false (NoCopy []).
+      else chunk_loop fidx (S (N.to_nat len)) (alloc1 st1) pos len nent true (NoCopy [])
+    else chunk_loop fidx (S (N.to_nat len)) st pos len MAX_EMBED_FCES false (NoCopy []).
 
   (** ** fcache_put_chunk *)
   Definition fcache_put_chunk (st : state) (c : chunk) : state :=
@@ -486,11 +505,11 @@ Section Fcache.
   (** ** Histories *)
 
   Inductive op :=
-  | OpGet (pos : N) (o : oracle)          (* fcache_get; the entry is kept in a handle *)
-  | OpPut (h : nat)                       (* fcache_put of handle h *)
-  | OpPread (pos len : N) (o : oracle)
-  | OpChunk (pos len : N) (o : oracle)    (* get_chunk, read the data, put_chunk *)
-  | OpChunkHold (pos len : N) (o : oracle)
+  | OpGet (fidx pos : N) (o : oracle)          (* fcache_get; the entry is kept in a handle *)
+  | OpPut (h : nat)                           (* fcache_put of handle h *)
+  | OpPread (fidx pos len : N) (o : oracle)
+  | OpChunk (fidx pos len : N) (o : oracle)   (* get_chunk, read the data, put_chunk *)
+  | OpChunkHold (fidx pos len : N) (o : oracle)
   | OpChunkPut (h : nat)
   | OpPolicy (p : policy).
 
@@ -527,8 +546,8 @@ Section Fcache.
 
   Definition step (m : machine) (o : op) : outcome * machine :=
     match o with
-    | OpGet pos orc =>
-      match fcache_get (set_orc (m_st m) orc) pos with
+    | OpGet fidx pos orc =>
+      match fcache_get fidx (set_orc (m_st m) orc) pos with
       | (GOk f, st1) =>
         (match collect (fc_view f) with Some bs => OutData bs GEmpty | None => OutSigbus end,
          mkMachine st1 (m_fces m ++ [Some f]) (m_chunks m))
@@ -540,17 +559,17 @@ Section Fcache.
         (OutDone, mkMachine (fcache_put (m_st m) f) (clear_nth h (m_fces m)) (m_chunks m))
       | _ => (OutDone, m)
       end
-    | OpPread pos len orc =>
-      let '(r, st1) := fcache_pread (set_orc (m_st m) orc) pos len in
+    | OpPread fidx pos len orc =>
+      let '(r, st1) := fcache_pread fidx (set_orc (m_st m) orc) pos len in
       (r, mkMachine st1 (m_fces m) (m_chunks m))
-    | OpChunk pos len orc =>
-      match fcache_get_chunk (set_orc (m_st m) orc) pos len with
+    | OpChunk fidx pos len orc =>
+      match fcache_get_chunk fidx (set_orc (m_st m) orc) pos len with
       | (ChOk c, st1) =>
         (observe_chunk c, mkMachine (fcache_put_chunk st1 c) (m_fces m) (m_chunks m))
       | (r, st1) => (chunk_err r, mkMachine st1 (m_fces m) (m_chunks m))
       end
-    | OpChunkHold pos len orc =>
-      match fcache_get_chunk (set_orc (m_st m) orc) pos len with
+    | OpChunkHold fidx pos len orc =>
+      match fcache_get_chunk fidx (set_orc (m_st m) orc) pos len with
       | (ChOk c, st1) =>
         (observe_chunk c, mkMachine st1 (m_fces m) (m_chunks m ++ [Some c]))
       | (r, st1) => (chunk_err r, mkMachine st1 (m_fces m) (m_chunks m))
